@@ -1,23 +1,1191 @@
 package main
 
-// Event mode (L2) — placeholder until the concurrency layer is built.
+// Event mode (L2): thread bodies are executed symbolically one thread at a time. Every access
+// to shared mutable state becomes a micro-operation of an atomic block; values read from shared
+// state are fresh placeholders (shape forks for pointers/interfaces). The per-thread result is
+// a loop-free automaton (tree of blocks) that bmc.go composes with a symbolic scheduler.
 
-type SharedInfo struct{ Name string }
+import (
+	"fmt"
+	"go/types"
+	"sort"
+	"strings"
 
-type eventCtx struct{}
+	"golang.org/x/tools/go/ssa"
+)
 
-func (e *Engine) evLoad(fr *frame, c *Cell) Value     { panic(engineErr("event mode not built")) }
-func (e *Engine) evStore(fr *frame, c *Cell, v Value) { panic(engineErr("event mode not built")) }
-func (e *Engine) evMapFind(fr *frame, m *MapVal, k Value) *mapEntry {
-	panic(engineErr("event mode not built"))
+type SharedInfo struct {
+	Name string
 }
-func (e *Engine) evChanClose(fr *frame, ch *ChanVal)   { panic(engineErr("event mode not built")) }
-func (e *Engine) evChanRecv(fr *frame, ch *ChanVal)    { panic(engineErr("event mode not built")) }
-func (e *Engine) evGo(fr *frame, g goroutine)          { panic(engineErr("event mode not built")) }
-func (e *Engine) evLock(fr *frame, c *Cell, op string) { panic(engineErr("event mode not built")) }
+
+// ---------------------------------------------------------------------------
+// shapes: the non-scalar structure of a value; scalar leaves are SMT terms
+// ---------------------------------------------------------------------------
+
+type Shape struct {
+	Kind     string
+	Sort     Sort
+	N        int
+	Obj      string
+	Off, Cap int
+	T        types.Type
+	Sub      []*Shape
+	Fn       *ssa.Function
+	key      string
+}
+
+func (s *Shape) Key() string {
+	if s.key != "" {
+		return s.key
+	}
+	var sb strings.Builder
+	sb.WriteString(s.Kind)
+	switch s.Kind {
+	case "scalar":
+		sb.WriteString(":" + s.Sort.String())
+	case "str":
+		fmt.Fprintf(&sb, ":%d", s.N)
+	case "ptr", "map", "chan":
+		sb.WriteString(":" + s.Obj)
+	case "slice":
+		fmt.Fprintf(&sb, ":%s:%d:%d:%d", s.Obj, s.Off, s.N, s.Cap)
+	case "iface":
+		sb.WriteString(":" + s.T.String())
+	case "func":
+		sb.WriteString(":" + s.Fn.String())
+	}
+	if len(s.Sub) > 0 {
+		sb.WriteByte('(')
+		for i, x := range s.Sub {
+			if i > 0 {
+				sb.WriteByte(',')
+			}
+			sb.WriteString(x.Key())
+		}
+		sb.WriteByte(')')
+	}
+	s.key = sb.String()
+	return s.key
+}
+
+// leafSorts lists the sorts of the scalar leaves of a shape in order.
+func (s *Shape) leafSorts(out []Sort) []Sort {
+	switch s.Kind {
+	case "scalar":
+		return append(out, s.Sort)
+	case "str":
+		for i := 0; i < s.N; i++ {
+			out = append(out, BV(8))
+		}
+		return out
+	}
+	for _, x := range s.Sub {
+		out = x.leafSorts(out)
+	}
+	return out
+}
+
+// ---------------------------------------------------------------------------
+// registry: facts about shared state accumulated over explorations (fixpoint)
+// ---------------------------------------------------------------------------
+
+type mapKeyRec struct {
+	key string
+	val Value
+}
+
+type l2Registry struct {
+	mutable  map[string]bool
+	shapes   map[string][]*Shape
+	shapeIdx map[string]map[string]int
+	mapKeys  map[string][]mapKeyRec
+	mapKeyIx map[string]map[string]int
+	objType  map[string]types.Type
+	locKind  map[string]string          // cell | map | mutex | chan
+	prot     map[string]map[string]bool // location -> mutexes held at every access seen so far (nil: none seen)
+	noFuse   bool
+	changed  bool
+	changes  []string
+}
+
+func newRegistry() *l2Registry {
+	return &l2Registry{mutable: map[string]bool{}, shapes: map[string][]*Shape{}, shapeIdx: map[string]map[string]int{},
+		mapKeys: map[string][]mapKeyRec{}, mapKeyIx: map[string]map[string]int{}, objType: map[string]types.Type{}, locKind: map[string]string{},
+		prot: map[string]map[string]bool{}}
+}
+
+func (r *l2Registry) note(what string) {
+	r.changed = true
+	if len(r.changes) < 50 {
+		r.changes = append(r.changes, what)
+	}
+}
+
+func (r *l2Registry) addShape(loc string, s *Shape) int {
+	m := r.shapeIdx[loc]
+	if m == nil {
+		m = map[string]int{}
+		r.shapeIdx[loc] = m
+	}
+	if i, ok := m[s.Key()]; ok {
+		return i
+	}
+	m[s.Key()] = len(r.shapes[loc])
+	r.shapes[loc] = append(r.shapes[loc], s)
+	r.note("shape " + loc + " <- " + s.Key())
+	return len(r.shapes[loc]) - 1
+}
+
+func (r *l2Registry) addMapKey(m string, key string, v Value) int {
+	ix := r.mapKeyIx[m]
+	if ix == nil {
+		ix = map[string]int{}
+		r.mapKeyIx[m] = ix
+	}
+	if i, ok := ix[key]; ok {
+		return i
+	}
+	ix[key] = len(r.mapKeys[m])
+	r.mapKeys[m] = append(r.mapKeys[m], mapKeyRec{key, v})
+	r.note("mapkey " + m + " <- " + key)
+	return len(r.mapKeys[m]) - 1
+}
+
+func (r *l2Registry) setMutable(loc, kind string) {
+	if !r.mutable[loc] {
+		r.mutable[loc] = true
+		r.locKind[loc] = kind
+		r.note("mutable " + kind + " " + loc)
+	}
+}
+
+// ---------------------------------------------------------------------------
+// per-path event context
+// ---------------------------------------------------------------------------
+
+type microOp struct {
+	Kind   string // load store mlookup mupdate mdelete mlen mnext lock unlock rlock runlock close recv spawn assert reach mark
+	Loc    string
+	KeyIx  int
+	Shape  *Shape  // store/mupdate: shape of the stored value
+	Leaves []*Term // store: leaf terms; load: leaf placeholders
+	ShapeP *Term   // load: shape index placeholder (nil if the location has a single shape)
+	ShapeI int     // load: chosen shape index on this path
+	Res    *Term   // mlookup: found placeholder; mlen/mnext: result placeholder
+	Atomic bool    // sync/atomic access
+	Cond   *Term   // assert
+	Label  string
+	Child  int // spawn
+	Pos    string
+}
+
+type blockRec struct {
+	Tid      int
+	Src, Dst string
+	Ops      []microOp
+	Guard    []*Term
+	Terminal bool
+}
+
+type threadRec struct {
+	id       int
+	name     string
+	parent   int
+	spawnKey string
+	dec      []byte
+	phN      int
+	guards   []*Term
+	blk      *blockRec
+	lastKey  string
+	objN     map[string]int
+	done     bool
+	rootKey  string
+	heldW    map[string]int
+	heldR    map[string]int
+}
+
+func (t *threadRec) key() string {
+	return fmt.Sprintf("T%d[%s]%s", t.id, t.spawnKey, string(t.dec))
+}
+
+type threadDecl struct {
+	name string
+	fv   *FuncVal
+}
+
+type eventCtx struct {
+	reg             *l2Registry
+	setupMaxCell    int
+	setupMaxMap     int
+	setupMaxChan    int
+	decls           []threadDecl
+	finally         *FuncVal
+	target          int // index of the declared thread explored on this path
+	cur             *threadRec
+	threads         []*threadRec
+	blocks          []*blockRec
+	atomic          int
+	setupPC         []*Term
+	active          bool
+	byName          map[string]*Cell // shadow / published cells by name
+	mapByName       map[string]*MapVal
+	chanByName      map[string]*ChanVal
+	children        int
+	pendingChildren []pendingChild
+	setupKey        string
+	setupClasses    []classRec
+	options         map[string]bool
+	setupMaps       map[int]*MapVal
+	setupChans      map[int]*ChanVal
+	setupSyncMaps   map[*Cell]*MapVal
+	run             *l2Run
+	fineGrained     bool
+	setupCells      map[int]*Cell
+	initVals        map[string]Value // initial value of mutable setup cells, captured lazily
+}
+
+type restartExploration struct{ why string }
+
+// ---------------------------------------------------------------------------
+// naming
+// ---------------------------------------------------------------------------
+
+func (e *Engine) cellName(c *Cell) (string, bool) {
+	if c.Shared != nil {
+		return c.Shared.Name, true
+	}
+	if e.ev != nil && c.ID <= e.ev.setupMaxCell {
+		return fmt.Sprintf("S%d", c.ID), true
+	}
+	return "", false
+}
+
+func (e *Engine) isMutableCell(c *Cell) (string, bool) {
+	if e.ev == nil || !e.ev.active {
+		return "", false
+	}
+	n, ok := e.cellName(c)
+	if !ok {
+		return "", false
+	}
+	return n, e.ev.reg.mutable[n]
+}
+
+func (e *Engine) mapName(m *MapVal) (string, bool) {
+	if m.Name != "" {
+		return m.Name, true
+	}
+	if e.ev != nil && m.ID <= e.ev.setupMaxMap {
+		return fmt.Sprintf("M%d", m.ID), true
+	}
+	return "", false
+}
+
+func (e *Engine) chanName(ch *ChanVal) (string, bool) {
+	if ch.Name != "" {
+		return ch.Name, true
+	}
+	if e.ev != nil && ch.ID <= e.ev.setupMaxChan {
+		return fmt.Sprintf("C%d", ch.ID), true
+	}
+	return "", false
+}
+
+// origin names an object allocated by the current thread at an allocation site.
+func (e *Engine) originName(site string) string {
+	t := e.ev.cur
+	if t.objN == nil {
+		t.objN = map[string]int{}
+	}
+	k := t.objN[site]
+	t.objN[site] = k + 1
+	return fmt.Sprintf("T%d@%s#%d", t.id, site, k)
+}
+
+// ---------------------------------------------------------------------------
+// flatten / rebuild
+// ---------------------------------------------------------------------------
+
+func (e *Engine) publishCellTree(c *Cell, name string, t types.Type) {
+	if c.Shared != nil {
+		return
+	}
+	if c.ID <= e.ev.setupMaxCell {
+		return
+	}
+	c.Shared = &SharedInfo{Name: name}
+	e.ev.byName[name] = c
+	e.ev.reg.setMutable(name, "cell")
+	switch v := c.V.(type) {
+	case *StructVal:
+		for i, f := range v.F {
+			e.publishCellTree(f, fmt.Sprintf("%s.f%d", name, i), nil)
+		}
+	case *ArrayVal:
+		for i, f := range v.E {
+			e.publishCellTree(f, fmt.Sprintf("%s[%d]", name, i), nil)
+		}
+	default:
+		// publishing an object publishes what it points to; its current content becomes the
+		// initial content of the shared location (recorded as a store by the publishing block)
+		sh, leaves := e.flatten(c.V)
+		e.emitOp(microOp{Kind: "store", Loc: name, Shape: sh, Leaves: leaves, ShapeI: e.ev.reg.addShape(name, sh), Pos: "publish"})
+	}
+}
+
+func (e *Engine) flatten(v Value) (*Shape, []*Term) {
+	switch x := v.(type) {
+	case *Term:
+		return &Shape{Kind: "scalar", Sort: x.Sort}, []*Term{x}
+	case *StrVal:
+		return &Shape{Kind: "str", N: len(x.B)}, append([]*Term{}, x.B...)
+	case PtrVal:
+		if x.C == nil {
+			return &Shape{Kind: "nilptr"}, nil
+		}
+		n, ok := e.cellName(x.C)
+		if !ok {
+			if x.C.Origin == "" {
+				panic(engineErr("event mode: pointer to an unnamed private location is published into shared state"))
+			}
+			n = x.C.Origin
+			e.ev.reg.objType[n] = x.C.Type
+			e.publishCellTree(x.C, n, x.C.Type)
+		}
+		return &Shape{Kind: "ptr", Obj: n}, nil
+	case IfaceVal:
+		if x.T == nil {
+			return &Shape{Kind: "nil"}, nil
+		}
+		s, l := e.flatten(x.V)
+		return &Shape{Kind: "iface", T: x.T, Sub: []*Shape{s}}, l
+	case *StructVal:
+		sh := &Shape{Kind: "struct"}
+		var leaves []*Term
+		for _, f := range x.F {
+			s, l := e.flatten(f.V)
+			sh.Sub = append(sh.Sub, s)
+			leaves = append(leaves, l...)
+		}
+		return sh, leaves
+	case *ArrayVal:
+		sh := &Shape{Kind: "array"}
+		var leaves []*Term
+		for _, f := range x.E {
+			s, l := e.flatten(f.V)
+			sh.Sub = append(sh.Sub, s)
+			leaves = append(leaves, l...)
+		}
+		return sh, leaves
+	case SliceVal:
+		if x.Arr == nil {
+			return &Shape{Kind: "nilslice"}, nil
+		}
+		if x.Arr.Name == "" {
+			if x.Arr.Origin == "" {
+				panic(engineErr("event mode: slice of an unnamed array is published into shared state"))
+			}
+			x.Arr.Name = x.Arr.Origin
+			e.ev.reg.objType[x.Arr.Name] = x.Arr.Type
+			e.ev.arrByName()[x.Arr.Name] = x.Arr
+			for i, c := range x.Arr.E {
+				e.publishCellTree(c, fmt.Sprintf("%s[%d]", x.Arr.Name, i), nil)
+			}
+		}
+		return &Shape{Kind: "slice", Obj: x.Arr.Name, Off: x.Off, N: x.Len, Cap: x.Cap}, nil
+	case *MapVal:
+		if x == nil {
+			return &Shape{Kind: "nilmap"}, nil
+		}
+		n, ok := e.mapName(x)
+		if !ok {
+			if x.Origin == "" {
+				panic(engineErr("event mode: unnamed map published"))
+			}
+			x.Name = x.Origin
+			n = x.Name
+			e.ev.mapByName[n] = x
+			e.ev.reg.setMutable(n, "map")
+			if len(x.Entries) > 0 {
+				panic(engineErr("event mode: publishing a non-empty thread-created map is not modelled"))
+			}
+		}
+		return &Shape{Kind: "map", Obj: n}, nil
+	case *ChanVal:
+		if x == nil {
+			return &Shape{Kind: "nilchan"}, nil
+		}
+		n, ok := e.chanName(x)
+		if !ok {
+			if x.Origin == "" {
+				panic(engineErr("event mode: unnamed channel published"))
+			}
+			x.Name = x.Origin
+			n = x.Name
+			e.ev.chanByName[n] = x
+			e.ev.reg.setMutable(n, "chan")
+			e.ev.reg.locKind[n] = "chan"
+		}
+		return &Shape{Kind: "chan", Obj: n}, nil
+	case *FuncVal:
+		if x == nil {
+			return &Shape{Kind: "nilfunc"}, nil
+		}
+		if len(x.Bind) > 0 || x.Fn == nil {
+			panic(engineErr("event mode: closure with bindings stored into shared mutable state is not modelled"))
+		}
+		return &Shape{Kind: "func", Fn: x.Fn}, nil
+	case nil:
+		return &Shape{Kind: "nil"}, nil
+	}
+	panic(engineErr("event mode: cannot flatten %T", v))
+}
+
+var arrRegistry = map[*eventCtx]map[string]*ArrayVal{}
+
+func (ev *eventCtx) arrByName() map[string]*ArrayVal {
+	m := arrRegistry[ev]
+	if m == nil {
+		m = map[string]*ArrayVal{}
+		arrRegistry[ev] = m
+	}
+	return m
+}
+
+// cellByName returns the cell of a named shared location, creating a shadow object for
+// objects allocated by other threads.
+func (e *Engine) cellByName(name string) *Cell {
+	if c, ok := e.ev.byName[name]; ok {
+		return c
+	}
+	if strings.HasPrefix(name, "S") {
+		var id int
+		if _, err := fmt.Sscanf(name, "S%d", &id); err == nil {
+			if c, ok := e.ev.setupCells[id]; ok {
+				return c
+			}
+			panic(engineErr("event mode: setup cell %s not found", name))
+		}
+	}
+	t, ok := e.ev.reg.objType[name]
+	if !ok {
+		panic(engineErr("event mode: no type recorded for shared object %s", name))
+	}
+	c := e.newCell(e.zero(t))
+	c.Type = t
+	e.markShadow(c, name)
+	return c
+}
+
+func (e *Engine) markShadow(c *Cell, name string) {
+	c.Shared = &SharedInfo{Name: name}
+	e.ev.byName[name] = c
+	switch v := c.V.(type) {
+	case *StructVal:
+		for i, f := range v.F {
+			e.markShadow(f, fmt.Sprintf("%s.f%d", name, i))
+		}
+	case *ArrayVal:
+		for i, f := range v.E {
+			e.markShadow(f, fmt.Sprintf("%s[%d]", name, i))
+		}
+	}
+}
+
+func (e *Engine) rebuild(s *Shape, leaves []*Term, pos *int) Value {
+	switch s.Kind {
+	case "scalar":
+		t := leaves[*pos]
+		*pos++
+		return t
+	case "str":
+		r := &StrVal{B: append([]*Term{}, leaves[*pos:*pos+s.N]...)}
+		*pos += s.N
+		return r
+	case "nilptr":
+		return PtrVal{}
+	case "ptr":
+		return PtrVal{C: e.cellByName(s.Obj)}
+	case "nil":
+		return IfaceVal{}
+	case "iface":
+		return IfaceVal{T: s.T, V: e.rebuild(s.Sub[0], leaves, pos)}
+	case "struct":
+		st := &StructVal{}
+		for _, x := range s.Sub {
+			st.F = append(st.F, e.newCell(e.rebuild(x, leaves, pos)))
+		}
+		return st
+	case "array":
+		st := &ArrayVal{}
+		for _, x := range s.Sub {
+			st.E = append(st.E, e.newCell(e.rebuild(x, leaves, pos)))
+		}
+		return st
+	case "nilslice":
+		return SliceVal{}
+	case "slice":
+		arr, ok := e.ev.arrByName()[s.Obj]
+		if !ok {
+			t, ok := e.ev.reg.objType[s.Obj]
+			if !ok {
+				panic(engineErr("event mode: no type for shared array %s", s.Obj))
+			}
+			arr = e.zero(t).(*ArrayVal)
+			arr.Name = s.Obj
+			e.ev.arrByName()[s.Obj] = arr
+			for i, c := range arr.E {
+				e.markShadow(c, fmt.Sprintf("%s[%d]", s.Obj, i))
+			}
+		}
+		return SliceVal{Arr: arr, Off: s.Off, Len: s.N, Cap: s.Cap}
+	case "nilmap":
+		return (*MapVal)(nil)
+	case "map":
+		if m, ok := e.ev.mapByName[s.Obj]; ok {
+			return m
+		}
+		e.mapN++
+		m := &MapVal{ID: e.mapN, Name: s.Obj}
+		e.ev.mapByName[s.Obj] = m
+		return m
+	case "nilchan":
+		return (*ChanVal)(nil)
+	case "chan":
+		if c, ok := e.ev.chanByName[s.Obj]; ok {
+			return c
+		}
+		e.chanN++
+		c := &ChanVal{ID: e.chanN, Name: s.Obj}
+		e.ev.chanByName[s.Obj] = c
+		return c
+	case "nilfunc":
+		return (*FuncVal)(nil)
+	case "func":
+		return &FuncVal{Fn: s.Fn}
+	}
+	panic(engineErr("event mode: cannot rebuild shape %s", s.Kind))
+}
+
+// ---------------------------------------------------------------------------
+// blocks
+// ---------------------------------------------------------------------------
+
+func (e *Engine) newPlaceholder(s Sort) *Term {
+	t := e.ev.cur
+	t.phN++
+	return e.tb.Sym(fmt.Sprintf("ph!T%d!%s!%d!%s", t.id, t.spawnKey, t.phN, strings.ReplaceAll(s.String(), " ", "")), s)
+}
+
+// Blocks follow Lipton's reduction: right movers (lock acquisitions), both movers (accesses to
+// locations that every access seen so far performs under a common mutex), at most one
+// non-mover, then left movers (releases). Here: a block is R B* L or a single non-mover, or a
+// harness-declared atomic section. The lockset facts live in the registry and are part of
+// the fixpoint (a fusion decision that later turns out unjustified forces another iteration).
+func (e *Engine) emitOp(op microOp) {
+	t := e.ev.cur
+	kind := e.moverKind(&op)
+	if e.ev.atomic == 0 {
+		switch kind {
+		case 'R', 'N':
+			e.closeBlock()
+		}
+	}
+	if t.blk == nil {
+		t.blk = &blockRec{Tid: t.id, Src: t.lastKey}
+	}
+	t.blk.Ops = append(t.blk.Ops, op)
+	switch op.Kind {
+	case "lock":
+		t.heldW[op.Loc]++
+	case "unlock":
+		t.heldW[op.Loc]--
+	case "rlock":
+		t.heldR[op.Loc]++
+	case "runlock":
+		t.heldR[op.Loc]--
+	}
+	if e.ev.atomic == 0 && (kind == 'L' || kind == 'N') {
+		e.closeBlock()
+	}
+}
+
+func (e *Engine) moverKind(op *microOp) byte {
+	t := e.ev.cur
+	if t.heldW == nil {
+		t.heldW, t.heldR = map[string]int{}, map[string]int{}
+	}
+	switch op.Kind {
+	case "lock", "rlock":
+		return 'R'
+	case "unlock", "runlock":
+		return 'L'
+	case "load", "mlookup", "mlen", "mnext", "store", "mupdate", "mdelete":
+		if op.Atomic || op.Pos == "publish" {
+			if op.Pos == "publish" {
+				return 'B'
+			}
+			return 'N'
+		}
+		write := op.Kind == "store" || op.Kind == "mupdate" || op.Kind == "mdelete"
+		held := map[string]bool{}
+		for m, n := range t.heldW {
+			if n > 0 {
+				held[m] = true
+			}
+		}
+		if !write {
+			for m, n := range t.heldR {
+				if n > 0 {
+					held[m] = true
+				}
+			}
+		}
+		reg := e.ev.reg
+		cur, seen := reg.prot[op.Loc]
+		if !seen {
+			reg.prot[op.Loc] = held
+			cur = held
+		} else {
+			for m := range cur {
+				if !held[m] {
+					delete(cur, m)
+					reg.note("lockset of " + op.Loc + " lost " + m)
+				}
+			}
+		}
+		if len(cur) > 0 && !reg.noFuse {
+			return 'B'
+		}
+		return 'N'
+	}
+	return 'N'
+}
+
+// closeBlock ends the block under construction (if any).
+func (e *Engine) closeBlock() {
+	t := e.ev.cur
+	if t.blk == nil {
+		return
+	}
+	n := 0
+	for _, b := range e.ev.blocks {
+		if b.Tid == t.id {
+			n++
+		}
+	}
+	t.blk.Dst = fmt.Sprintf("%s/%d", t.key(), n+1)
+	t.blk.Guard = t.guards
+	t.guards = nil
+	t.lastKey = t.blk.Dst
+	e.ev.blocks = append(e.ev.blocks, t.blk)
+	t.blk = nil
+}
+
+// endBlock is called after a micro-operation was emitted; with reduction-based fusion the
+// decision was already taken in emitOp, so this only closes a block when forced.
+func (e *Engine) endBlock(force bool) {
+	if force {
+		e.closeBlock()
+	}
+}
+
+// evGuard records a path-condition conjunct added while a thread runs.
+func (e *Engine) evGuard(c *Term) {
+	if e.ev != nil && e.ev.active && e.ev.cur != nil {
+		e.ev.cur.guards = append(e.ev.cur.guards, c)
+	}
+}
+
+func (e *Engine) evDecision(d bool) {
+	if e.ev != nil && e.ev.active && e.ev.cur != nil {
+		b := byte('0')
+		if d {
+			b = '1'
+		}
+		e.ev.cur.dec = append(e.ev.cur.dec, b)
+	}
+}
+
+// ---------------------------------------------------------------------------
+// memory events
+// ---------------------------------------------------------------------------
+
+func (e *Engine) initialShape(loc string, c *Cell) {
+	if _, ok := e.ev.initVals[loc]; ok {
+		return
+	}
+	e.ev.initVals[loc] = c.V
+	if c.ID <= e.ev.setupMaxCell {
+		sh, _ := e.flatten(c.V)
+		e.ev.reg.addShape(loc, sh)
+	}
+}
+
+func (e *Engine) evLoad(fr *frame, c *Cell) Value {
+	loc, _ := e.cellName(c)
+	switch c.V.(type) {
+	case *StructVal, *ArrayVal:
+		// aggregates are trees of cells: load field-wise
+		return e.loadAggregate(fr, c)
+	}
+	e.initialShape(loc, c)
+	shapes := e.ev.reg.shapes[loc]
+	if len(shapes) == 0 {
+		panic(engineErr("event mode: load of %s with no known shape", loc))
+	}
+	op := microOp{Kind: "load", Loc: loc, Pos: e.posOf(fr)}
+	si := 0
+	if len(shapes) > 1 {
+		op.ShapeP = e.newPlaceholder(BV(8))
+		e.assume(e.tb.Cmp("<", IntTy{8, false}, op.ShapeP, e.tb.BVConst(uint64(len(shapes)), 8)))
+		si = len(shapes) - 1
+		for i := 0; i < len(shapes)-1; i++ {
+			if e.branch(e.tb.Eq(op.ShapeP, e.tb.BVConst(uint64(i), 8))) {
+				si = i
+				break
+			}
+		}
+		if si == len(shapes)-1 {
+			e.assume(e.tb.Eq(op.ShapeP, e.tb.BVConst(uint64(si), 8)))
+		}
+	}
+	op.ShapeI = si
+	sh := shapes[si]
+	for _, s := range sh.leafSorts(nil) {
+		op.Leaves = append(op.Leaves, e.newPlaceholder(s))
+	}
+	e.emitOp(op)
+	pos := 0
+	v := e.rebuild(sh, op.Leaves, &pos)
+	e.endBlock(false)
+	return v
+}
+
+func (e *Engine) loadAggregate(fr *frame, c *Cell) Value {
+	switch v := c.V.(type) {
+	case *StructVal:
+		n := &StructVal{F: make([]*Cell, len(v.F))}
+		for i, f := range v.F {
+			n.F[i] = e.newCell(e.load(fr, f))
+		}
+		return n
+	case *ArrayVal:
+		n := &ArrayVal{E: make([]*Cell, len(v.E))}
+		for i, f := range v.E {
+			n.E[i] = e.newCell(e.load(fr, f))
+		}
+		return n
+	}
+	return e.load(fr, c)
+}
+
+func (e *Engine) posOf(fr *frame) string {
+	if fr == nil {
+		return "?"
+	}
+	return e.posStr(fr.pos)
+}
+
+func (e *Engine) evStore(fr *frame, c *Cell, v Value) {
+	loc, _ := e.cellName(c)
+	switch x := v.(type) {
+	case *StructVal:
+		if dst, ok := c.V.(*StructVal); ok {
+			for i := range x.F {
+				e.store(fr, dst.F[i], x.F[i].V)
+			}
+			return
+		}
+	case *ArrayVal:
+		if dst, ok := c.V.(*ArrayVal); ok {
+			for i := range x.E {
+				e.store(fr, dst.E[i], x.E[i].V)
+			}
+			return
+		}
+	}
+	e.initialShape(loc, c)
+	sh, leaves := e.flatten(v)
+	si := e.ev.reg.addShape(loc, sh)
+	e.emitOp(microOp{Kind: "store", Loc: loc, Shape: sh, Leaves: leaves, ShapeI: si, Pos: e.posOf(fr)})
+	e.endBlock(false)
+}
+
+// storeToSetupCell is called for stores to setup cells that are not (yet) known to be mutable.
+func (e *Engine) noteMutable(c *Cell, kind string) {
+	n, _ := e.cellName(c)
+	e.ev.reg.setMutable(n, kind)
+	panic(restartExploration{"location " + n + " turned out to be mutable"})
+}
+
 func (e *Engine) evAtomic(fr *frame, c *Cell, op string, v *Term) Value {
-	panic(engineErr("event mode not built"))
+	loc, _ := e.cellName(c)
+	e.initialShape(loc, c)
+	e.beginAtomic()
+	defer e.endAtomic()
+	switch op {
+	case "load":
+		ph := e.newPlaceholder(c.V.(*Term).Sort)
+		e.emitOp(microOp{Kind: "load", Loc: loc, Leaves: []*Term{ph}, Atomic: true, Pos: e.posOf(fr)})
+		return ph
+	case "store":
+		sh, leaves := e.flatten(v)
+		e.emitOp(microOp{Kind: "store", Loc: loc, Shape: sh, Leaves: leaves, ShapeI: e.ev.reg.addShape(loc, sh), Atomic: true, Pos: e.posOf(fr)})
+		return nil
+	case "add":
+		ph := e.newPlaceholder(c.V.(*Term).Sort)
+		e.emitOp(microOp{Kind: "load", Loc: loc, Leaves: []*Term{ph}, Atomic: true, Pos: e.posOf(fr)})
+		nv := e.tb.IntBin("+", i64, ph, v, e.ovf)
+		sh, leaves := e.flatten(nv)
+		e.emitOp(microOp{Kind: "store", Loc: loc, Shape: sh, Leaves: leaves, ShapeI: e.ev.reg.addShape(loc, sh), Atomic: true, Pos: e.posOf(fr)})
+		return nv
+	}
+	panic(engineErr("evAtomic %s", op))
 }
+
+// ---------------------------------------------------------------------------
+// maps
+// ---------------------------------------------------------------------------
+
+func (e *Engine) canonKey(k Value) string {
+	switch x := k.(type) {
+	case *Term:
+		if !x.IsConst() {
+			panic(engineErr("event mode: symbolic key used on a shared map (keys must be concrete in concurrency harnesses)"))
+		}
+		return constSMT(x)
+	case *StrVal:
+		s, ok := x.Concrete()
+		if !ok {
+			panic(engineErr("event mode: symbolic string key used on a shared map"))
+		}
+		return fmt.Sprintf("%q", s)
+	case IfaceVal:
+		if x.T == nil {
+			return "nil"
+		}
+		return x.T.String() + ":" + e.canonKey(x.V)
+	case *StructVal:
+		var parts []string
+		for _, f := range x.F {
+			parts = append(parts, e.canonKey(f.V))
+		}
+		return "{" + strings.Join(parts, ",") + "}"
+	}
+	panic(engineErr("event mode: map key of type %T", k))
+}
+
+// resolveKey makes a possibly symbolic key concrete by forking over the known universe.
+func (e *Engine) resolveKey(mname string, k Value) (int, string) {
+	concrete := true
+	switch x := k.(type) {
+	case *Term:
+		concrete = x.IsConst()
+	case *StrVal:
+		_, concrete = x.Concrete()
+	case IfaceVal:
+		if s, ok := x.V.(*StrVal); ok {
+			_, concrete = s.Concrete()
+		}
+	}
+	if concrete {
+		ck := e.canonKey(k)
+		return e.ev.reg.addMapKey(mname, ck, k), ck
+	}
+	for i, kr := range e.ev.reg.mapKeys[mname] {
+		if e.branch(e.equal(kr.val, k)) {
+			return i, kr.key
+		}
+	}
+	panic(pathEnd{kind: "infeasible", msg: "symbolic key outside the key universe of " + mname})
+}
+
+func (e *Engine) sharedMap(m *MapVal) (string, bool) {
+	if e.ev == nil || !e.ev.active || m == nil {
+		return "", false
+	}
+	n, ok := e.mapName(m)
+	if !ok {
+		return "", false
+	}
+	return n, e.ev.reg.mutable[n]
+}
+
+// evMapLookup returns (found, value) of a lookup on a shared mutable map.
+func (e *Engine) evMapLookup(fr *frame, mname string, k Value) (bool, Value) {
+	ki, _ := e.resolveKey(mname, k)
+	slot := fmt.Sprintf("%s{%d}", mname, ki)
+	found := e.newPlaceholder(BoolSort)
+	op := microOp{Kind: "mlookup", Loc: mname, KeyIx: ki, Res: found, Pos: e.posOf(fr)}
+	isFound := e.branch(found)
+	var v Value
+	if isFound {
+		shapes := e.ev.reg.shapes[slot]
+		if len(shapes) == 0 {
+			panic(pathEnd{kind: "infeasible", msg: "no value ever stored in " + slot})
+		}
+		si := 0
+		if len(shapes) > 1 {
+			op.ShapeP = e.newPlaceholder(BV(8))
+			e.assume(e.tb.Cmp("<", IntTy{8, false}, op.ShapeP, e.tb.BVConst(uint64(len(shapes)), 8)))
+			si = len(shapes) - 1
+			for i := 0; i < len(shapes)-1; i++ {
+				if e.branch(e.tb.Eq(op.ShapeP, e.tb.BVConst(uint64(i), 8))) {
+					si = i
+					break
+				}
+			}
+			if si == len(shapes)-1 {
+				e.assume(e.tb.Eq(op.ShapeP, e.tb.BVConst(uint64(si), 8)))
+			}
+		}
+		op.ShapeI = si
+		for _, s := range shapes[si].leafSorts(nil) {
+			op.Leaves = append(op.Leaves, e.newPlaceholder(s))
+		}
+		pos := 0
+		v = e.rebuild(shapes[si], op.Leaves, &pos)
+	} else {
+		op.ShapeI = -1
+	}
+	e.emitOp(op)
+	e.endBlock(false)
+	return isFound, v
+}
+
+func (e *Engine) evMapUpdate(fr *frame, mname string, k, v Value) {
+	ki, _ := e.resolveKey(mname, k)
+	slot := fmt.Sprintf("%s{%d}", mname, ki)
+	sh, leaves := e.flatten(v)
+	si := e.ev.reg.addShape(slot, sh)
+	e.emitOp(microOp{Kind: "mupdate", Loc: mname, KeyIx: ki, Shape: sh, Leaves: leaves, ShapeI: si, Pos: e.posOf(fr)})
+	e.endBlock(false)
+}
+
+func (e *Engine) evMapDelete(fr *frame, mname string, k Value) {
+	ki, _ := e.resolveKey(mname, k)
+	e.emitOp(microOp{Kind: "mdelete", Loc: mname, KeyIx: ki, Pos: e.posOf(fr)})
+	e.endBlock(false)
+}
+
+func (e *Engine) evMapLen(fr *frame, mname string) *Term {
+	ph := e.newPlaceholder(BV(64))
+	e.emitOp(microOp{Kind: "mlen", Loc: mname, Res: ph, Pos: e.posOf(fr)})
+	e.endBlock(false)
+	return ph
+}
+
+// evMapNext: iteration over a shared map visits the present keys in universe order; returns
+// the universe index of the next present key at or after pos, or -1.
+func (e *Engine) evMapNext(fr *frame, mname string, pos int) int {
+	keys := e.ev.reg.mapKeys[mname]
+	ph := e.newPlaceholder(BV(8))
+	e.emitOp(microOp{Kind: "mnext", Loc: mname, KeyIx: pos, Res: ph, Pos: e.posOf(fr)})
+	res := -1
+	for i := pos; i < len(keys); i++ {
+		if e.branch(e.tb.Eq(ph, e.tb.BVConst(uint64(i), 8))) {
+			res = i
+			break
+		}
+	}
+	if res < 0 {
+		e.assume(e.tb.Eq(ph, e.tb.BVConst(255, 8)))
+	}
+	e.endBlock(false)
+	return res
+}
+
+// evMapSlotLoad reads the value stored under universe key ki (used by iteration).
+func (e *Engine) evMapSlotLoad(fr *frame, mname string, ki int) Value {
+	_, v := e.evMapLookup(fr, mname, e.ev.reg.mapKeys[mname][ki].val)
+	return v
+}
+
+// ---------------------------------------------------------------------------
+// mutexes, channels, goroutines
+// ---------------------------------------------------------------------------
+
+func (e *Engine) evLock(fr *frame, c *Cell, op string) {
+	loc, _ := e.cellName(c)
+	e.ev.reg.setMutable(loc, "mutex")
+	e.ev.reg.locKind[loc] = "mutex"
+	if op == "lock" || op == "rlock" {
+		// a blocking operation starts a new block (unless inside an atomic section)
+		e.endBlock(false)
+	}
+	e.emitOp(microOp{Kind: op, Loc: loc, Pos: e.posOf(fr)})
+	e.endBlock(false)
+}
+
+func (e *Engine) evChanClose(fr *frame, ch *ChanVal) {
+	n, _ := e.chanName(ch)
+	e.ev.reg.setMutable(n, "chan")
+	e.ev.reg.locKind[n] = "chan"
+	e.emitOp(microOp{Kind: "close", Loc: n, Pos: e.posOf(fr)})
+	e.endBlock(false)
+}
+
+func (e *Engine) evChanRecv(fr *frame, ch *ChanVal) {
+	n, _ := e.chanName(ch)
+	e.ev.reg.setMutable(n, "chan")
+	e.ev.reg.locKind[n] = "chan"
+	e.endBlock(false)
+	e.emitOp(microOp{Kind: "recv", Loc: n, Pos: e.posOf(fr)})
+	e.endBlock(false)
+}
+
+func (e *Engine) evGo(fr *frame, g goroutine) {
+	parent := e.ev.cur
+	e.ev.children++
+	child := &threadRec{id: 100*parent.id + e.ev.children, name: "go@" + g.pos, parent: parent.id, spawnKey: fmt.Sprintf("%x", hashString(parent.key()))}
+	child.lastKey = fmt.Sprintf("T%d[%s]unspawned", child.id, child.spawnKey)
+	e.emitOp(microOp{Kind: "spawn", Child: child.id, Label: child.lastKey, Pos: g.pos})
+	e.endBlock(false)
+	e.ev.threads = append(e.ev.threads, child)
+	e.ev.pendingChildren = append(e.ev.pendingChildren, pendingChild{child, g})
+}
+
+type pendingChild struct {
+	t *threadRec
+	g goroutine
+}
+
+func hashString(s string) uint32 {
+	h := uint32(2166136261)
+	for i := 0; i < len(s); i++ {
+		h ^= uint32(s[i])
+		h *= 16777619
+	}
+	return h
+}
+
+// runThreadBody runs one thread context to completion and then its children.
+func (e *Engine) runThread(t *threadRec, body func()) {
+	prev := e.ev.cur
+	e.ev.cur = t
+	body()
+	// terminal pseudo-block carries the remaining guards and marks the end of the thread
+	e.ev.atomic = 0
+	e.closeBlock()
+	t.blk = &blockRec{Tid: t.id, Src: t.lastKey, Terminal: true, Ops: []microOp{{Kind: "end"}}}
+	e.closeBlock()
+	t.done = true
+	e.ev.cur = prev
+	for len(e.ev.pendingChildren) > 0 {
+		pc := e.ev.pendingChildren[0]
+		e.ev.pendingChildren = e.ev.pendingChildren[1:]
+		e.runThread(pc.t, func() {
+			if pc.g.inv != nil {
+				e.invoke(nil, pc.g.recv, pc.g.inv.Method, pc.g.args)
+			} else {
+				e.callFunc(nil, pc.g.fv, pc.g.args)
+			}
+		})
+	}
+}
+
+// ---------------------------------------------------------------------------
+// intrinsics of concurrency harnesses
+// ---------------------------------------------------------------------------
+
 func (e *Engine) evIntrinsic(fr *frame, name string, args []Value) (Value, bool) {
 	return nil, false
+}
+
+// evRunThreads ends the sequential setup and explores the target thread in event mode.
+func (e *Engine) evRunThreads(fr *frame) {
+	ev := e.ev
+	ev.setupMaxCell, ev.setupMaxMap, ev.setupMaxChan = e.cellN, e.mapN, e.chanN
+	for _, c := range e.allCells {
+		ev.setupCells[c.ID] = c
+	}
+	ev.setupMaps = map[int]*MapVal{}
+	for _, m := range e.allMaps {
+		ev.setupMaps[m.ID] = m
+	}
+	for _, m := range e.syncMaps {
+		ev.setupMaps[m.ID] = m
+	}
+	ev.setupChans = map[int]*ChanVal{}
+	for _, c := range e.allChans {
+		ev.setupChans[c.ID] = c
+	}
+	e.trackCells = false
+	ev.setupKey = decString(e.decisions)
+	ev.setupPC = append([]*Term{}, e.pc...)
+	ev.setupClasses = append([]classRec{}, e.classes...)
+	if ev.run != nil {
+		ev.run.lastDecls = len(ev.decls)
+	}
+	for i, d := range ev.decls {
+		t := &threadRec{id: i + 1, name: d.name}
+		t.rootKey = fmt.Sprintf("T%d[]root", t.id)
+		t.lastKey = t.rootKey
+		ev.threads = append(ev.threads, t)
+	}
+	var fin *threadRec
+	if ev.finally != nil {
+		fin = &threadRec{id: len(ev.decls) + 1, name: "finally"}
+		fin.rootKey = fmt.Sprintf("T%d[]root", fin.id)
+		fin.lastKey = fin.rootKey
+		ev.threads = append(ev.threads, fin)
+	}
+	ev.active = true
+	switch {
+	case ev.target < len(ev.decls):
+		d := ev.decls[ev.target]
+		e.runThread(ev.threads[ev.target], func() { e.callFunc(nil, d.fv, nil) })
+	case ev.target == len(ev.decls) && fin != nil:
+		e.runThread(fin, func() { e.callFunc(nil, ev.finally, nil) })
+	}
+	panic(pathEnd{kind: "done"})
+}
+
+func sortedNames(m map[string]bool) []string {
+	var out []string
+	for k := range m {
+		out = append(out, k)
+	}
+	sort.Strings(out)
+	return out
+}
+
+// evNamed: in event mode, is this cell part of the (setup or published) shared state?
+func (e *Engine) evNamed(c *Cell) bool {
+	if e.ev == nil || !e.ev.active || c == nil {
+		return false
+	}
+	_, ok := e.cellName(c)
+	return ok
+}
+
+func (e *Engine) siteOf(fr *frame, in ssa.Instruction) string {
+	fn := in.Parent().String()
+	if i := strings.LastIndex(fn, "/"); i >= 0 {
+		fn = fn[i+1:]
+	}
+	idx := 0
+	for bi, b := range in.Parent().Blocks {
+		for ii, x := range b.Instrs {
+			if x == in {
+				idx = bi*1000 + ii
+			}
+		}
+	}
+	return fmt.Sprintf("%s:%d", fn, idx)
+}
+
+func (e *Engine) beginAtomic() {
+	if e.ev.atomic == 0 {
+		e.closeBlock()
+	}
+	e.ev.atomic++
+}
+
+func (e *Engine) endAtomic() {
+	e.ev.atomic--
+	if e.ev.atomic == 0 {
+		e.closeBlock()
+	}
 }
